@@ -229,7 +229,7 @@ def execute_hist(case):
         h = History(case)
         w = h.world
         k = w.kernel
-        wcfg = dict((wc["name"], wc) for wc in case["watchers"])
+        wcfg = dict((wc["name"], dict(wc)) for wc in case["watchers"])
         environ0 = dict(os.environ)
         checked = [0]
 
@@ -321,10 +321,37 @@ def execute_hist(case):
         check_spawns()
         check_wids()
         h.run(on_op)
-        h.settle(checks=1)
+        ok_ = h.settle(checks=1)
         check_spawns()
         if not viols:
             check_wids()
+        if ok_ and not viols and not w.exited:
+            # a run-time change of the environment is applied by reloading
+            # the workers: once everything has settled no live worker still
+            # runs with the old value (send_hup watchers only get a SIGHUP)
+            for name, wc in wcfg.items():
+                if not wc.get("tagged") or wc.get("send_hup"):
+                    continue
+                if h.status(name) != 'active':
+                    continue
+                want_tag = (wc.get("env") or {}).get("VERIF_A")
+                for pid in w.eff_live(name):
+                    rec = k.procs[pid].rec
+                    tag = None
+                    for i_, a_ in enumerate(rec["args"] or []):
+                        if a_ == '--tag' and i_ + 1 < len(rec["args"]):
+                            tag = rec["args"][i_ + 1]
+                    if tag != want_tag or (rec["env"] or {}).get(
+                            "VERIF_A") != want_tag:
+                        viols.append(Violation(
+                            'C13:live-worker-with-old-configuration',
+                            'worker %d of %s still runs with --tag %r / '
+                            'VERIF_A=%r after the watcher\'s environment was '
+                            'set to VERIF_A=%r' % (
+                                pid, name, tag,
+                                (rec["env"] or {}).get("VERIF_A"),
+                                want_tag)))
+                        break
         respawn = len([r for r in k.spawn_log if r["pid"] is not None]) > \
             sum(int(wc.get("numprocesses", 1)) for wc in case["watchers"])
         if respawn:
@@ -481,10 +508,19 @@ def _hist_strategy():
                              "--wid $(circus.wid)" % wc["name"])
                 for _ in range(draw(st.integers(0, 2))):
                     pos = draw(st.integers(0, len(c["ops"])))
+                    opts = {"env": {"VERIF_A": draw(st.sampled_from(
+                        ["two", "x9", "1"]))}}
+                    extra = draw(st.sampled_from(
+                        [None, None, ("numprocesses", 2),
+                         ("warmup_delay", 0.05), ("graceful_timeout", 0.2)]))
+                    if extra is not None:
+                        # several options in one message (their order counts)
+                        if draw(st.booleans()):
+                            opts[extra[0]] = extra[1]
+                        else:
+                            opts = dict([extra] + list(opts.items()))
                     c["ops"].insert(pos, ["req", "set", {
-                        "name": wc["name"], "options": {"env": {
-                            "VERIF_A": draw(st.sampled_from(
-                                ["two", "x9", "1"]))}}}])
+                        "name": wc["name"], "options": opts}])
         c["daemon_env"] = {"VERIF_DAEMON_ONLY": "d1"}
         return c
     return case()
